@@ -72,6 +72,7 @@ func propC01(c *Ctx) string {
 	c01Size(c)
 	c01Hdr(c)
 	c01FieldUse(c)
+	c01FieldMix(c)
 	c01Const(c, "C01/CONST")
 	c.NotDecide("byte values against an independent reference codec (layout per spec)", "field-for-field equality after decode", "that encoding succeeds for every well-formed value", "binary.PutUvarint writes varintLen(n) bytes for n <= maxVarint (standard library fact, pinned by the CONST thresholds)")
 	c.Assume("write helpers fill exactly the bytes they report (summaries are extracted from their bodies; copy() into a buffer checked to be >= Len())")
@@ -1926,5 +1927,119 @@ func c01FieldUse(c *Ctx) {
 		}
 		r.Check("packet.(*"+pt.name+").Encode", bad == nil && nsucc > 0, enc.Decl.Pos(), nsucc,
 			"field "+why+" is not read on a successful path of Encode: its value is dropped depending on another field, and decoding the bytes yields a different packet", shortWitness(c.witness(bad))...)
+	}
+}
+
+// ---------------------------------------------------------------- C01/FIELDMIX
+
+// c01FieldMix: in Encode, how one field is written must not depend on another field. A condition (with the
+// conditions of the enclosing ifs) that mentions two different fields of the packet — neither a container of the
+// other (Will / Will.Topic) — is admissible only as a validation, i.e. when the guarded branch refuses the packet with
+// an error. Anything else writes different bytes for the same value of a field depending on a second field, which the
+// decoder (reading each field from its own bits) cannot undo: the round trip yields a different packet.
+func c01FieldMix(c *Ctx) {
+	r := c.Rule("C01/FIELDMIX", "TABLE", "Encode: no non-refusing branch is guarded by conditions over two unrelated fields of the packet (each field's encoding depends on that field only; cross-field conditions are validations that return an error)", 14)
+	for _, pt := range c.packetTypes() {
+		enc := c.P.ByObj[c.P.Method("packet", pt.name, "Encode")]
+		if enc == nil || enc.Decl.Body == nil || enc.Decl.Recv == nil || len(enc.Decl.Recv.List) == 0 || len(enc.Decl.Recv.List[0].Names) == 0 {
+			r.Undecided("packet.(*"+pt.name+").Encode", 0, "not found")
+			continue
+		}
+		info := enc.Pkg.TypesInfo
+		recv := info.Defs[enc.Decl.Recv.List[0].Names[0]]
+		// field paths below the receiver mentioned by an expression: "Will", "Will.Topic", "Message.QOS", "ID"
+		paths := func(e ast.Expr) map[string]bool {
+			out := map[string]bool{}
+			ast.Inspect(e, func(m ast.Node) bool {
+				sel, ok := m.(*ast.SelectorExpr)
+				if !ok {
+					return true
+				}
+				// walk down to the receiver
+				var names []string
+				cur := ast.Expr(sel)
+				for {
+					s, ok := ast.Unparen(cur).(*ast.SelectorExpr)
+					if !ok {
+						break
+					}
+					if fv, ok := info.ObjectOf(s.Sel).(*types.Var); !ok || !fv.IsField() {
+						return true
+					}
+					names = append([]string{s.Sel.Name}, names...)
+					cur = s.X
+				}
+				if id, ok := ast.Unparen(cur).(*ast.Ident); ok && info.ObjectOf(id) == recv && len(names) > 0 {
+					out[strings.Join(names, ".")] = true
+					return false
+				}
+				return true
+			})
+			return out
+		}
+		related := func(a, b string) bool {
+			return a == b || strings.HasPrefix(a, b+".") || strings.HasPrefix(b, a+".")
+		}
+		refuses := func(b *ast.BlockStmt) bool {
+			if b == nil || len(b.List) == 0 {
+				return false
+			}
+			ret, ok := b.List[len(b.List)-1].(*ast.ReturnStmt)
+			if !ok || len(ret.Results) != 2 {
+				return false
+			}
+			tv, ok := info.Types[ret.Results[1]]
+			return ok && !tv.IsNil()
+		}
+		bad := ""
+		var badPos token.Pos
+		nIf := 0
+		var walk func(n ast.Node, outer map[string]bool)
+		walk = func(n ast.Node, outer map[string]bool) {
+			ast.Inspect(n, func(m ast.Node) bool {
+				is, ok := m.(*ast.IfStmt)
+				if !ok || m == n {
+					return true
+				}
+				nIf++
+				here := paths(is.Cond)
+				all := map[string]bool{}
+				for k := range outer {
+					all[k] = true
+				}
+				for k := range here {
+					all[k] = true
+				}
+				var ks []string
+				for k := range all {
+					ks = append(ks, k)
+				}
+				sort.Strings(ks)
+				mixed := ""
+				for i := range ks {
+					for j := i + 1; j < len(ks); j++ {
+						if !related(ks[i], ks[j]) && (here[ks[i]] || here[ks[j]]) {
+							mixed = ks[i] + " / " + ks[j]
+						}
+					}
+				}
+				elseBlock, _ := is.Else.(*ast.BlockStmt)
+				if mixed != "" && !refuses(is.Body) && !refuses(elseBlock) && bad == "" {
+					bad, badPos = mixed, is.Pos()
+				}
+				walk(is.Body, all)
+				if is.Else != nil {
+					walk(is.Else, outer)
+				}
+				return false
+			})
+		}
+		walk(enc.Decl.Body, map[string]bool{})
+		pos := enc.Decl.Pos()
+		if bad != "" {
+			pos = badPos
+		}
+		r.Check("packet.(*"+pt.name+").Encode", bad == "", pos, nIf+1,
+			"a branch that does not refuse the packet is guarded by conditions over the unrelated fields "+bad+": the bytes written for one of them depend on the other, the decoder reads each from its own bits")
 	}
 }
